@@ -105,7 +105,7 @@ func checkText(text, tail string) (expectation, error) {
 		if msg == "" {
 			return e, fmt.Errorf("%s accepts a text with a %s error at %s\ntext:\n%s", name, e.kind, want, text)
 		}
-		if !strings.Contains(msg, want+":") && !strings.HasSuffix(msg, want) && !strings.Contains(msg, want+" ") {
+		if !rec.MentionsPos(msg, "t.ebnf", e.line, e.col) {
 			return e, fmt.Errorf("the %s error is at %s (first character of the first offending token), but the diagnostic of %s says: %s\ntext:\n%s", e.kind, want, name, msg, text)
 		}
 		for _, m := range posRe.FindAllString(msg, -1) {
